@@ -15,17 +15,18 @@ type trimWriter struct {
 	trim bool
 }
 
-// Write writes b to the current buffer. If the trim flag is set,
-// a prefix whitespace trim on b is performed before writing it to
-// the buffer and the trim flag is unset. If the trim flag was not
-// set, the current buffer is flushed before b is written.
+// Write flushes the current buffer and then writes b to it, so that the
+// buffer only ever holds the most recent write (the one a following
+// TrimLeft may trim). If the trim flag is set, a prefix whitespace trim on b
+// is performed before writing it to the buffer and the trim flag is unset.
 // Write only returns the bytes written to w during a flush.
 func (tw *trimWriter) Write(b []byte) (n int, err error) {
+	if n, err = tw.Flush(); err != nil {
+		return n, err
+	}
 	if tw.trim {
 		b = bytes.TrimLeftFunc(b, unicode.IsSpace)
 		tw.trim = false
-	} else if n, err = tw.Flush(); err != nil {
-		return n, err
 	}
 	_, err = tw.buf.Write(b)
 	return
